@@ -216,6 +216,21 @@ class PlaneFlow:
         return problems, nst, planes_seen
 
 
+def cond_members(f, cond, depth=0):
+    """members a condition depends on, looking through locals that have a single definition (`const EbBool on = cfg.flag; if (on)`)"""
+    out = set()
+    for x in subexprs(cond):
+        if x[0] == 'm':
+            out.add(x[1])
+        elif x[0] == 'v' and x[2] == 'l' and depth < 3:
+            defs = [d for d in f.events(('decl', 'st')) if (d['k'] == 'decl' and d['n'] == x[1] and d.get('e') is not None) or
+                    (d['k'] == 'st' and d['e'][0] == 'a' and d['e'][1] == '=' and strip(d['e'][2]) == x)]
+            if len(defs) == 1:
+                rhs = defs[0]['e'] if defs[0]['k'] == 'decl' else defs[0]['e'][3]
+                out |= cond_members(f, rhs, depth + 1)
+    return out
+
+
 def call_plane_args(P, f, voc, names):
     """copy / save calls: all plane-bearing arguments of one call belong to one plane"""
     pf = PlaneFlow(f, voc)
@@ -377,6 +392,17 @@ def run(P, rep, tier):
             lv = [x for x in leaves_q(rhs) if x and x[0] == 'm' and (x[1] in REF or x[1] in REC)]
             if not lv or len(lv) != len(leaves_q(rhs)):
                 continue
+            r0 = strip(rhs)
+            if r0[0] == 'q' and any(x[0] == 'm' and x[1] == FLAG for x in subexprs(r0[1])):
+                # selection written as a conditional expression on the flag: its two arms are the two cases
+                c = strip(r0[1])
+                neg = (c[0] == 'u' and c[1] == '!') or (c[0] == 'b' and c[1] == '!=' and pstr(strip(c[3])) in ('1', 'EB_TRUE')) or \
+                      (c[0] == 'b' and c[1] == '==' and pstr(strip(c[3])) in ('0', 'EB_FALSE'))
+                for armv, sub in ((not neg, r0[2]), (neg, r0[3])):
+                    for x in leaves_q(sub):
+                        if x and x[0] == 'm' and (x[1] in REF or x[1] in REC):
+                            pairs.setdefault((name, ev.get('l', 0)), []).append((armv, x[1], ev, len(leaves_q(sub)) > 1))
+                continue
             chain = g.ctl_chain(ev)
             arm = None
             inner = []
@@ -482,7 +508,7 @@ def run(P, rep, tier):
             for kind, cond, line in g.ctl_chain(ev):
                 if kind != 'if' or cond is None:
                     continue
-                flds = {x[1] for x in subexprs(cond) if x[0] == 'm'}
+                flds = cond_members(g, cond)
                 if RECON_EN in flds or (FLAG in flds and len(flds) > 1 and any('restoration' in x or 'recon' in x for x in flds)):
                     nneed += 1
                     ok = 'EbSvtAv1EncConfiguration.stat_report' in flds
@@ -509,7 +535,7 @@ def run(P, rep, tier):
             continue
         n += 1
         src_ok = r[0] == 'm' and r[1] == 'PictureParentControlSet.' + l[1].split('.')[1]
-        gated = any(kind == 'if' and cond is not None and any(x[0] == 'm' and x[1] == STAT for x in subexprs(cond)) for kind, cond, line in pk.ctl_chain(ev))
+        gated = any(kind == 'if' and cond is not None and STAT in cond_members(pk, cond) for kind, cond, line in pk.ctl_chain(ev))
         rep.ob('C26.FLOW', 'packet:%s' % l[1].split('.')[1], src_ok and gated, pk.loc(ev),
                ('%s copied from the picture\'s %s under stat_report' % (l[1].split('.')[1], r[1].split('.')[1])) if (src_ok and gated) else
                ('%s is filled from %s%s' % (l[1].split('.')[1], pstr(r)[:50], '' if gated else ' outside the stat_report branch')))
@@ -520,7 +546,7 @@ def run(P, rep, tier):
     if not sites:
         raise AnalysisBroken('psnr_calculations is never called')
     for g, ev in sites:
-        gated = any(kind == 'if' and cond is not None and any(x[0] == 'm' and x[1] == STAT for x in subexprs(cond)) for kind, cond, line in g.ctl_chain(ev))
+        gated = any(kind == 'if' and cond is not None and STAT in cond_members(g, cond) for kind, cond, line in g.ctl_chain(ev))
         rep.ob('C26.FLOW', 'call@%s/gated' % g.name, gated, g.loc(ev), 'psnr_calculations is called under static_config.stat_report' if gated else 'psnr_calculations is not gated by stat_report')
         # no recon-modifying filter after it in the same kernel iteration
         starts = {c['b'] for c, nm in g.calls(('svt_get_full_object',))}
